@@ -9,7 +9,7 @@ def mask_of(inv):
 
 
 def run(rng, out, n):
-    from amaranth.hdl import Module, Signal, IOPort, ClockDomain
+    from amaranth.hdl import Module, Signal, IOPort, ClockDomain, ResetInserter, EnableInserter, DomainRenamer
     from amaranth.hdl._ir import PortDirection
     from amaranth.back import rtlil
     from amaranth.lib import io
@@ -20,8 +20,9 @@ def run(rng, out, n):
         bdir = rng.choice(["i", "o", "io"])
         pdir = rng.choice([bdir, "io"])
         ff = rng.random() < 0.3
+        wrapper = rng.choice([None, None, "reset", "enable", "rename"])
         cfg = {"kind": "real-port", "width": w, "invert": list(inv), "differential": diff, "buffer_dir": bdir,
-               "port_dir": pdir, "ffbuffer": ff}
+               "port_dir": pdir, "ffbuffer": ff, "buffer_under": wrapper}
         M = mask_of(inv)
         full = (1 << w) - 1
         try:
@@ -37,9 +38,13 @@ def run(rng, out, n):
             cd = ClockDomain("sync")
             m.domains.sync = cd
             buf = io.FFBuffer(bdir, port) if ff else io.Buffer(bdir, port)
-            m.submodules.buf = buf
+            # the buffer may sit under a control inserter held inactive (reset 0 / enable 1) or a no-op renamer:
+            # the transformed copy of the design has to contain the same buffers
+            hold = Signal(name="hold")
+            m.submodules.buf = {None: lambda x: x, "reset": lambda x: ResetInserter(hold)(x), "enable": lambda x: EnableInserter(~hold)(x),
+                                "rename": lambda x: DomainRenamer({"nowhere": "sync"})(x)}[wrapper](buf)
             o, oe, i = Signal(w, name="o"), Signal(name="oe"), Signal(w, name="i")
-            ports = {"clk": (cd.clk, PortDirection.Input)}
+            ports = {"clk": (cd.clk, PortDirection.Input), "hold": (hold, PortDirection.Input)}
             if bdir in ("o", "io"):
                 m.d.comb += [buf.o.eq(o), buf.oe.eq(oe)]
                 ports["o"] = (o, PortDirection.Input)
@@ -107,6 +112,12 @@ def run(rng, out, n):
             ev.step()
         ev.set("clk", 0)
         try:
+            ev.set("hold", 0)
+        except E.EvalError:
+            pass
+        if wrapper:
+            out["hist"]["real-port-buffer-under:" + wrapper] = out["hist"].get("real-port-buffer-under:" + wrapper, 0) + 1
+        try:
             for rep in range(6):
                 ov, oev, pad_ext = rng.getrandbits(w), rng.getrandbits(1), rng.getrandbits(w)
                 if bdir in ("o", "io"):
@@ -122,6 +133,11 @@ def run(rng, out, n):
                     clock()
                     if bdir == "io":
                         clock()     # second edge: the input register samples the looped-back pad
+                if bdir == "o" and not oev:
+                    pv, px = ev.get(pname)
+                    if px != full:
+                        bad("pad-driven-while-output-disabled", o=ov, pad=pv, defined_bits=full & ~px)
+                        break
                 if bdir in ("o", "io") and oev:
                     pv, px = ev.get(pname)
                     if px or pv != (ov ^ M):
